@@ -472,6 +472,10 @@ func decodeDeb(p *Pkg, b []byte, tools map[string]string) error {
 	if !cshape.EndMarker || cshape.NonZeroAfterEOA {
 		p.prob("tar-end-marker", "control.tar: end-of-archive marker missing or followed by data")
 	}
+	// dpkg's own tar reader takes ustar and GNU long names/links, not PAX extension headers
+	if n := cshape.Types['x'] + cshape.Types['g']; n > 0 {
+		p.prob("deb-pax-header", "control.tar holds %d PAX extension header(s), which dpkg refuses to unpack", n)
+	}
 	p.ControlTar = ces
 	for i := range ces {
 		stampTar(p, "control.tar", &ces[i])
@@ -495,6 +499,9 @@ func decodeDeb(p *Pkg, b []byte, tools map[string]string) error {
 	}
 	if !dshape.EndMarker || dshape.NonZeroAfterEOA {
 		p.prob("tar-end-marker", "data.tar: end-of-archive marker missing or followed by data")
+	}
+	if n := dshape.Types['x'] + dshape.Types['g']; n > 0 {
+		p.prob("deb-pax-header", "data.tar holds %d PAX extension header(s), which dpkg refuses to unpack", n)
 	}
 	p.DataTar = des
 	p.Entries = entriesFromTar(des, "data.tar", p)
